@@ -112,8 +112,27 @@ def build(ctor, b, a):
   return num / den
 
 
+class ReIter(object):
+  """An input that is re-iterable but neither a list nor a Stream."""
+  def __init__(self, data):
+    self.data = list(data)
+  def __iter__(self):
+    return iter(list(self.data))
+
+
+XKINDS = ["list", "tuple", "stream", "iter", "generator", "reiter", "stream-of-iter"]
+
+
+def as_input(xk, x):
+  x = list(x)
+  return {"list": lambda: x, "tuple": lambda: tuple(x), "stream": lambda: Stream(x), "iter": lambda: iter(x),
+          "generator": lambda: (v for v in x), "reiter": lambda: ReIter(x),
+          "stream-of-iter": lambda: Stream(iter(x))}[xk]()
+
+
 def run_filter(case):
-  b, a, ctor, memk, zk, L, conc = case
+  b, a, ctor, memk, zk, L, conc = case[:7]
+  xk = case[7] if len(case) > 7 else "list"          # how the input sequence is handed over
   bd, ad = as_dict(b), as_dict(a)
   order = max(ad)
   zero = {"sym": sym("zr"), "Q0": Q(0), "int0": 0, "float0": 0.0}[zk]
@@ -153,7 +172,7 @@ def run_filter(case):
       kw["memory"] = mem_arg
     if not (zk == "float0" and memk == "none" and ctor == "list"):
       kw["zero"] = zero           # otherwise exercise the documented default 0.0
-    out = filt(x, **kw)
+    out = filt(as_input(xk, x), **kw)
     if not isinstance(out, Stream):
       return bad("filter:type", "filter call must return a Stream", "Stream", type(out).__name__)
     got = list(out)
@@ -192,7 +211,7 @@ def run_filter(case):
     else:
       cexp = [e.subs(env) for e in ref_filter(bd, ad, x, sym("zr"), [sym("zr")] * order)]
     try:
-      cgot = list(build(ctor, b, a)([Q(v) for v in xs], **kw))
+      cgot = list(build(ctor, b, a)(as_input(XKINDS[(XKINDS.index(xk) + 3) % len(XKINDS)], [Q(v) for v in xs]), **kw))
     except Exception as exc:
       return bad("filter:exception:" + type(exc).__name__, "concrete run raised", cexp,
                  {"exc": type(exc).__name__, "msg": str(exc)[:200]}, nontriv)
@@ -214,7 +233,7 @@ def gen_full(run):
   for b in run.rot(list(vectors(ml, B_ALPHA))):
     for a in avs:
       i += 1
-      yield ([enc(c) for c in b], [enc(c) for c in a], "list", "exact", "sym", 5, i % 4)
+      yield ([enc(c) for c in b], [enc(c) for c in a], "list", "exact", "sym", 5, i % 4, XKINDS[i % len(XKINDS)])
 
 
 def gen_variants(run):
@@ -226,13 +245,15 @@ def gen_variants(run):
           for zk in ZEROS:
             i += 1
             for L in ((0, 1, 2, 6)[i % 4],):
-              yield ([enc(c) for c in b], [enc(c) for c in a], ctor, memk, zk, L, i % 4 if L else None)
+              yield ([enc(c) for c in b], [enc(c) for c in a], ctor, memk, zk, L, i % 4 if L else None,
+                     XKINDS[(i // 4) % len(XKINDS)])
   for bd, ad in SPARSE:
     for ctor in ("dict", "zexpr", "LinearFilter"):
       for memk in MEMS:
         for zk in ZEROS:
+          i += 1
           yield ({str(k): v for k, v in bd.items()}, {str(k): v for k, v in ad.items()},
-                 ctor, memk, zk, 9 if max(list(bd) + list(ad)) < 8 else 30, 2)
+                 ctor, memk, zk, 9 if max(list(bd) + list(ad)) < 8 else 30, 2, XKINDS[i % len(XKINDS)])
 
 
 # ------------------------------------------------------- negative delays
